@@ -617,8 +617,6 @@ MUST_FIRE = [
     ('to_ascii emits error before flux', [(SO, '.format(self.flux[j], self.error[j])', '.format(self.error[j], self.flux[j])')]),
     ('y from column 1', [(SO, "s.y = np.float64(cols[2])", "s.y = np.float64(cols[1])")]),
     ('fluxes read from the flags onwards', [(SO, "flux_and_error = np.array(cols[3 + n_wav:], dtype=float)", "flux_and_error = np.array(cols[3:], dtype=float)")]),
-    ('flux assigned before valid', [(SO, "        s.valid = np.array(cols[3:3 + n_wav], dtype=int)\n        flux_and_error = np.array(cols[3 + n_wav:], dtype=float)\n        s.flux = flux_and_error[::2]\n",
-                                         "        flux_and_error = np.array(cols[3 + n_wav:], dtype=float)\n        s.flux = flux_and_error[::2]\n        s.valid = np.array(cols[3:3 + n_wav], dtype=int)\n")]),
     ('from_dict flux/error crossed', [(SO, "s.flux = source_dict['flux']\n        s.error = source_dict['error']", "s.flux = source_dict['error']\n        s.error = source_dict['flux']")]),
     ('getstate loses y', [(SO, "            'y': self.y,\n            'valid': self.valid,\n            'flux': self.flux,\n            'error': self.error\n        }\n\n    def __setstate__", "            'valid': self.valid,\n            'flux': self.flux,\n            'error': self.error\n        }\n\n    def __setstate__")]),
     ('flag 9 rejected', [(SO, "(value < 0) | ((value > 4) & (value != 9))", "(value < 0) | (value > 4)")]),
@@ -626,6 +624,8 @@ MUST_FIRE = [
     ('n_wav prefers flux', [(SO, "        if self.valid is not None:\n            return len(self.valid)\n        elif self.flux is not None:\n            return len(self.flux)", "        if self.flux is not None:\n            return len(self.flux)\n        elif self.valid is not None:\n            return len(self.valid)")]),
 ]
 MUST_SILENT = [
+    ('flux assigned before valid (the length test then falls on the flags: the same lines are refused)', [(SO, "        s.valid = np.array(cols[3:3 + n_wav], dtype=int)\n        flux_and_error = np.array(cols[3 + n_wav:], dtype=float)\n        s.flux = flux_and_error[::2]\n",
+                                         "        flux_and_error = np.array(cols[3 + n_wav:], dtype=float)\n        s.flux = flux_and_error[::2]\n        s.valid = np.array(cols[3:3 + n_wav], dtype=int)\n")]),
     ('length check through a helper', [(SO, 'if self.n_wav is not None and len(value) != self.n_wav:\n                raise ValueError("flux', 'if self._mismatch(value):\n                raise ValueError("flux'),
                                        (SO, '    @property\n    def n_data(self):', '    def _mismatch(self, value):\n        return self.n_wav is not None and len(value) != self.n_wav\n\n    @property\n    def n_data(self):')]),
     ('length check spelled the other way round', [(SO, 'if self.n_wav is not None and len(value) != self.n_wav:\n                raise ValueError("error', 'if not (self.n_wav is None or self.n_wav == len(value)):\n                raise ValueError("error')]),
